@@ -188,10 +188,39 @@ VClasses  == {"zero", "negzero", "intf", "pyint", "ord", "tiny", "huge", "neg", 
 (* numpy scalars the library's own validity check counts as real numbers (ValidTypes.NUMBERS has numpy.number): *)
 (* double precision, 64-bit integer, single precision                                                           *)
 NumpyClasses == {"np64", "npint", "np32"}
-CtClasses == {"intf", "pyint", "ord", "tiny", "huge", "sig17"}              \* computation time is positive
+(* computation time: the Solution constructor rejects 0 and negative numbers (is_positive), so they are not      *)
+(* solutions and lie outside the statement's quantifier; the classes are int-valued float, python int, ordinary, *)
+(* 1e-7, 1e-9, 1e20, largest double, 17 significant digits                                                       *)
+CtClasses == {"intf", "pyint", "ord", "tiny", "tiny9", "huge", "max", "sig17"}
+
+(* ------------------------------ metadata text classes -------------------------------- *)
+(* processor name tokens (the harness maps a token to a concrete string):                                         *)
+(*   plain    ASCII, e.g. "AMD Ryzen 7 5800X 8-Core Processor"                                                    *)
+(*   tm       with trademark markers as in /proc/cpuinfo: "Intel(R) Core(TM) i7-8550U CPU @ 1.80GHz"              *)
+(*   xml      XML-special characters & < > " '                                                                    *)
+(*   spaces   leading / trailing / double blanks (blanks survive attribute-value normalisation)                   *)
+(*   unicode  non-ASCII text                                                                                      *)
+(*   empty    the empty string (distinct from None = attribute absent)                                            *)
+(*   long     200 characters                                                                                      *)
+(*   auto     the documented magic value: "determined automatically" - the written name is the machine's, so the  *)
+(*            VALUE is not asserted (EITHER); writing and reading back must still work                            *)
+(*   ws       tabs / line breaks: XML attribute-value normalisation (XML 1.0, 3.3.3) turns literal #x9 #xA #xD in *)
+(*            an attribute into blanks unless the serialiser writes character references, so XML itself may not   *)
+(*            preserve the string: EITHER                                                                         *)
+ProcTokens == {"plain", "tm", "xml", "spaces", "unicode", "empty", "long", "auto", "ws"}
+ProcEither == {"auto", "ws"}
+(* expected projection of the read-back processor name: "None" absent, "equal" identical string, "EITHER" band *)
+ProcExpect(expected, original) == IF original \in ProcEither THEN "EITHER"
+                                  ELSE IF expected = "None" THEN "None"
+                                  ELSE IF expected = original THEN "equal" ELSE "differs"
+(* date tokens ("date to the second"): default = constructor default (now, with microseconds), plain, midnight     *)
+(* 00:00:00, eoy = 31 Dec 23:59:59, micro = 31 Dec 23:59:59.999999 (rounding up would change the year),           *)
+(* micro1 = .000001, leap = 29 Feb with .5 s                                                                      *)
+DateTokens == {"default", "plain", "midnight", "eoy", "micro", "micro1", "leap"}
 (* lexical class of the shortest decimal text that reads back bit-identically (what an exact writer emits) *)
 LexOfV == [zero |-> "decimal", negzero |-> "decimal", intf |-> "decimal", pyint |-> "int", ord |-> "decimal",
            tiny |-> "exp", huge |-> "exp", neg |-> "decimal", sig17 |-> "decimal", extreme |-> "exp",
+           tiny9 |-> "exp", max |-> "exp",
            np64 |-> "decimal", npint |-> "int", np32 |-> "decimal"]
 
 (* ------------------------------ abstract document ----------------------------------- *)
